@@ -47,6 +47,7 @@ ATTRS = {
         "hasdst": ("self.hasdst", "Bool"), "_std_abbr": ("self.stdAbbr", "Str"), "_dst_abbr": ("self.dstAbbr", "Str"),
     },
 }
+ATTRS["TZ.GenericZone"] = {}
 TT_ATTRS = {"offset": ("%s.off", "Int"), "delta": ("(DtPy.tdSeconds %s.off)", "TD"), "isdst": ("%s.isdst", "Int"),
             "dstoffset": ("(DtPy.tdSeconds %s.dstoff)", "TD"), "abbr": ("%s.abbr", "Str")}
 
@@ -214,6 +215,12 @@ class DTr(TB.BTr):
                 if f.attr == "transitions" and len(e.args) == 1 and self.spec.self_type == "TZ.RangeZone":
                     b, t, ty = self.expr(e.args[0])
                     return b, "(DtPy.transitions self %s)" % self.coerce(t, ty, "Int"), "OptTrans"
+                if f.attr == "is_ambiguous" and self.spec.self_type == "TZ.GenericZone" and len(e.args) == 1:
+                    # dynamic dispatch: a subclass may override is_ambiguous (tzlocal does)
+                    b, t, ty = self.expr(e.args[0])
+                    n = self.fresh()
+                    return b + [(n, "DtPy.dispatchAmbiguous self (%s self) %s" % (self.specs["is_ambiguous"].leanname, t),
+                                 "Bool")], n, "Bool"
                 if f.attr in self.specs:
                     return self.user_call(self.specs[f.attr], e, with_self=True)
                 raise Untranslatable("method self.%s" % f.attr)
@@ -227,6 +234,10 @@ class DTr(TB.BTr):
                 b, t, ty = self.expr(e.keywords[0].value)
                 return b, "(DtPy.tdSeconds %s)" % self.coerce(t, ty, "Int"), "TD"
             b, t, ty = self.expr(f.value)
+            if f.attr in ("utcoffset", "dst") and ty == "Dt" and not e.args and not e.keywords \
+                    and self.spec.self_type == "TZ.GenericZone":
+                # dt.utcoffset() for a datetime attached to this zone = self.utcoffset(dt) (never None in the model)
+                return b, "(DtPy.tdSeconds (self.%s (DtPy.toWall %s)))" % (f.attr, t), "TD"
             if f.attr == "replace" and ty == "Dt" and not e.args and len(e.keywords) == 1 and e.keywords[0].arg == "tzinfo":
                 v = e.keywords[0].value
                 if isinstance(v, ast.Constant) and v.value is None: return b, "(DtPy.naive %s)" % t, "Dt"
@@ -386,6 +397,14 @@ class DTr(TB.BTr):
                         pad, v, ", ".join(names), self.block(rest, k, ind)))
         return TB.BTr.block(self, stmts, k, ind)
 
+    def type_of_first_assignment(self, s, v):
+        for n in ast.walk(s):
+            if isinstance(n, ast.Assign) and len(n.targets) == 1 and isinstance(n.targets[0], ast.Name) \
+                    and n.targets[0].id == v and isinstance(n.value, ast.Call) and isinstance(n.value.func, ast.Name) \
+                    and n.value.func.id == "int":
+                return "Int"
+        return TB.BTr.type_of_first_assignment(self, s, v)
+
     def is_none_test(self, t):
         """`x is None` on an optional-int variable -> the variable name"""
         if isinstance(t, ast.Compare) and len(t.ops) == 1 and isinstance(t.ops[0], ast.Is) and isinstance(t.left, ast.Name) \
@@ -466,7 +485,7 @@ def translate_files(src_root, groups):
     return "\n".join(parts), fps
 
 
-F, R = "TZ.TzFile", "TZ.RangeZone"
+F, R, G = "TZ.TzFile", "TZ.RangeZone", "TZ.GenericZone"
 TZ_GROUPS = [
     ("tz/tz.py", [
         DFn("_datetime_to_timestamp", "datetimeToTimestamp", [("dt", "Dt")], "Ts"),
@@ -490,6 +509,11 @@ TZ_GROUPS = [
         DFn("tzrangebase.dst", "tzrange_dst", [("dt", "Dt")], "TD", R),
         DFn("tzrangebase.tzname", "tzrange_tzname", [("dt", "Dt")], "Str", R),
         DFn("tzrangebase.fromutc", "tzrange_fromutc", [("dt", "Dt")], "Dt", R),
+        # the generic base class (tzlocal, tzical): over abstract utcoffset/dst of the zone record
+        DFn("_tzinfo.is_ambiguous", "tzinfo_isAmbiguous", [("dt", "Dt")], "Bool", G),
+        DFn("_tzinfo._fold_status", "tzinfo_foldStatus", [("dt_utc", "Dt"), ("dt_wall", "Dt")], "Int", G),
+        DFn("_tzinfo._fromutc", "tzinfo_fromutcWall", [("dt", "Dt")], "Dt", G),
+        DFn("_tzinfo.fromutc", "tzinfo_fromutc", [("dt", "Dt")], "Dt", G),
     ]),
 ]
 
